@@ -559,4 +559,94 @@ example : validate demoPlaceholder { demoInput with genes := [['E','N','S','G','
     .error .dupMapped := by
   decide +kernel
 
+/-! ### reading the matrix chunk by chunk -/
+
+/-- The integrality test (`is_x_integers`: does any value differ from its
+rounded value by more than `eps`?) read chunk by chunk answers the question for
+the whole array: the verdict is `true` iff every value of every chunk is within
+`eps` of an integer. -/
+theorem is_integers_chunked {eps : Rat} (h0 : 0 ≤ eps) (chunks : List (List Rat)) :
+    isIntegersChunked eps chunks = true ↔
+      ∀ ch ∈ chunks, ∀ v ∈ ch, absRat ((roundHalfEven v : Rat) - v) ≤ eps :=
+  isIntegersChunked_iff h0 chunks
+
+example : isIntegersChunked (1/1000) [[1, 2], [], [3 + 1/2000]] = true ∧
+    isIntegersChunked (1/1000) [[1, 2], [5/2]] = false := by decide +kernel
+
+/-- "all three encodings and chunk layouts": the verdict of the integrality test
+does not depend on how the values are cut into chunks. -/
+theorem is_integers_chunking_irrelevant {eps : Rat} (h0 : 0 ≤ eps) {chunks chunks' : List (List Rat)}
+    (h : ∀ v, v ∈ chunks.flatten ↔ v ∈ chunks'.flatten) :
+    isIntegersChunked eps chunks = isIntegersChunked eps chunks' := by
+  have key : ∀ cs : List (List Rat), isIntegersChunked eps cs = true ↔
+      ∀ v ∈ cs.flatten, absRat ((roundHalfEven v : Rat) - v) ≤ eps := by
+    intro cs
+    rw [isIntegersChunked_iff h0]
+    constructor
+    · intro hc v hv
+      obtain ⟨ch, hch, hvc⟩ := List.mem_flatten.1 hv
+      exact hc ch hch v hvc
+    · intro hc ch hch v hv
+      exact hc v (List.mem_flatten.2 ⟨ch, hch, hv⟩)
+  rw [Bool.eq_iff_iff, key, key]
+  exact ⟨fun hc v hv => hc v ((h v).2 hv), fun hc v hv => hc v ((h v).1 hv)⟩
+
+example : isIntegersChunked (1/1000) [[1, 5/2], [3]] = isIntegersChunked (1/1000) [[3, 1], [5/2], []] := by
+  decide +kernel
+
+/-- "chunked min/max = global" (CSR / CSC, 1-D `data` array): for every chunk
+size the minimum and maximum found are elements of the array bounding all of
+it; the same when the dataset is contiguous. -/
+theorem minmax_chunk {data : List Rat} (hd : data ≠ []) (chunks : Option Nat)
+    (hc : ∀ c, chunks = some c → 1 ≤ c) :
+    ∃ mn mx, minmaxSparse data chunks = .ok (some (mn, mx)) ∧ mn ∈ data ∧ mx ∈ data ∧
+      ∀ v ∈ data, mn ≤ v ∧ v ≤ mx :=
+  minmaxSparse_spec hd chunks hc
+
+example : minmaxSparse [3, -1/2, 7, 2, 2, 9, 0] (some 2) = .ok (some (-1/2, 9)) ∧
+    minmaxSparse [3, -1/2, 7, 2, 2, 9, 0] none = .ok (some (-1/2, 9)) := by decide +kernel
+
+/-- "chunked min/max = global" (dense, 2-D): for every chunk shape the minimum
+and maximum found are entries of the matrix bounding all entries; the same when
+the dataset is contiguous. -/
+theorem minmax_chunk_dense {m : List (List Rat)} {nCols : Nat} (hm : m ≠ []) (hn : 1 ≤ nCols)
+    (hrow : ∀ row ∈ m, row.length = nCols) (chunks : Option (Nat × Nat))
+    (hc : ∀ c, chunks = some c → 1 ≤ c.1 ∧ 1 ≤ c.2) :
+    ∃ mn mx, minmaxDense m nCols chunks = .ok (some (mn, mx)) ∧
+      mn ∈ m.flatten ∧ mx ∈ m.flatten ∧ ∀ v ∈ m.flatten, mn ≤ v ∧ v ≤ mx :=
+  minmaxDense_spec hm hn hrow chunks hc
+
+example : minmaxDense [[1, 2, 3], [4, -5, 6], [7, 8, 1/2]] 3 (some (2, 2)) = .ok (some (-5, 8)) ∧
+    minmaxDense [[1, 2, 3], [4, -5, 6], [7, 8, 1/2]] 3 none = .ok (some (-5, 8)) := by decide +kernel
+
+/-- "with every value moved by at most one half to an integer held in an integer
+type wide enough for all values when rounding is requested" - the complete
+statement for `_validate_h5ad`, under exact comparison of the bounds with the
+type limits (the stored type is an integer type, or the source compares Python
+ints; see `dtype_float_compare_too_narrow` for what happens otherwise): for any
+well-formed stored layer whose rounded values all fit uint64 or all fit int64,
+whenever an integer type is imposed, every entry of the new X is the rounded
+original entry - no entry falls outside the type. -/
+theorem cast_holds_all {placeholder : Nat → Name} {inp : Input} {plan : Plan} {d : String}
+    (h : validate placeholder inp = .ok plan) (hd : plan.dtype = some d)
+    (hf : inp.floatBits = none ∨ sourceMode = .exact)
+    (hw : inp.storage.WellFormed)
+    (hr : (∀ v ∈ inp.storage.values, 0 ≤ roundHalfEven v ∧ roundHalfEven v ≤ 18446744073709551615) ∨
+      (∀ v ∈ inp.storage.values,
+        -9223372036854775808 ≤ roundHalfEven v ∧ roundHalfEven v ≤ 9223372036854775807)) :
+    plan.values = inp.storage.values.map (fun v => some (roundHalfEven v : Rat)) := by
+  by_cases hv : inp.storage.values = []
+  · obtain ⟨_, rung, _, _, hpv⟩ := cast_values h hd
+    rw [hpv, hv]; rfl
+  · obtain ⟨mn, mx, hmm, hmn, hmx, hb⟩ := storage_minmax_spec hw hv
+    refine wide_enough h hd hf hmm hb ?_
+    rcases hr with hr | hr
+    · exact Or.inl ⟨(hr mn hmn).1, (hr mx hmx).2⟩
+    · exact Or.inr ⟨(hr mn hmn).1, (hr mx hmx).2⟩
+
+example : demoInput.storage.WellFormed := by
+  refine ⟨?_, ?_⟩
+  · decide
+  · intro c hc; cases hc; decide
+
 end CTM.C16
